@@ -534,7 +534,13 @@ func C14() int {
 		},
 	}
 	d.Drive()
-	c14Crash(rep, budget)
+	only := os.Getenv("VERIF_C14_ONLY") // development aid: run one part
+	if only == "" || only == "crash" {
+		c14Crash(rep, budget)
+	}
+	if only == "" || only == "vsched" {
+		c14V(rep, budget)
+	}
 	return rep.Finish()
 }
 
@@ -746,8 +752,12 @@ func init() {
 	Replayers["C14"] = func(doc json.RawMessage) int {
 		var probe struct {
 			Kind string `json:"kind"`
+			V    bool   `json:"vsched"`
 		}
 		_ = json.Unmarshal(doc, &probe)
+		if probe.V {
+			return MakeReplayer[c14VJob]("C14", "model_checking", c14VPool, c14VRun)(doc)
+		}
 		if probe.Kind == "crash" {
 			fmt.Println("replay of crash states: run ./vcheck C14 quick (the two recorded passes are enumerated completely in ~20 s)")
 			return C14()
